@@ -238,7 +238,13 @@ func (r *runner[C]) evalNamed(c C, distinctFailFiles bool, name string) error {
 	r.mu.Lock()
 	r.inflight = nil
 	r.mu.Unlock()
+	return r.record(c, &o, err, distinctFailFiles, name)
+}
 
+// record files the outcome of one evaluated case: evidence, known-finding classification,
+// replay file and failure line.
+func (r *runner[C]) record(c C, op *Obs, err error, distinctFailFiles bool, name string) error {
+	o := *op
 	var key []byte
 	if r.p.Key != nil {
 		key = r.p.Key(c)
@@ -456,4 +462,60 @@ func RunFuzz[C any](f *testing.F, p Prop[C]) {
 			rt.Fatalf("%v", err)
 		}
 	}))
+}
+
+// RunConcurrent is the concurrent-use stage, run in a binary built with the race detector:
+// the checks of several generated cases run at the same time on separate goroutines. The
+// library's package-level functions and independent values (readers over different streams,
+// different tries, sketches, indexes, matrices that are only read) share nothing a caller can
+// see, so every check must come out as it does alone and the race detector must stay silent;
+// a package-level scratch table, cache or pool that is not safe for concurrent use shows up as
+// a DATA RACE report (mapped to a violation by the driver) or as a failing check.
+func RunConcurrent[C any](t *testing.T, p Prop[C], workers int) {
+	env := getenv()
+	r := &runner[C]{p: p, env: env, t: t, stage: "concurrent"}
+	r.rec = rec.New(p.ID, "concurrent", env.shard)
+	stop := r.watchdog()
+	defer close(stop)
+	defer func() {
+		if err := r.rec.Dump(env.out); err != nil {
+			t.Errorf("cannot write recorder dump: %v", err)
+		}
+	}()
+	keepTempUntilBatchEnd = true
+	defer func() { keepTempUntilBatchEnd = false }()
+	rapid.Check(t, func(rt *rapid.T) {
+		cases := make([]C, workers)
+		for i := range cases {
+			cases[i] = p.Gen(rt, false)
+		}
+		obs := make([]Obs, workers)
+		errs := make([]error, workers)
+		r.mu.Lock()
+		r.inflight, r.inflightT = &cases[0], time.Now()
+		r.mu.Unlock()
+		var wg sync.WaitGroup
+		for i := range cases {
+			wg.Add(1)
+			go func(i int) {
+				defer wg.Done()
+				errs[i] = r.safeCheck(cases[i], &obs[i])
+			}(i)
+		}
+		wg.Wait()
+		r.mu.Lock()
+		r.inflight = nil
+		r.mu.Unlock()
+		removeTemp()
+		var first error
+		for i := range cases {
+			obs[i].Class("checked concurrently with other cases")
+			if err := r.record(cases[i], &obs[i], errs[i], false, ""); err != nil && first == nil {
+				first = fmt.Errorf("while %d cases were being checked at the same time on separate goroutines: %v", workers, err)
+			}
+		}
+		if first != nil {
+			rt.Fatalf("%v", first)
+		}
+	})
 }
